@@ -20,6 +20,7 @@ BUILTIN_ENUMS = {
     'Color': ['Black', 'Blue', 'Green', 'Red', 'Cyan', 'Magenta', 'Yellow', 'White'],
     'ColorChoice': ['Always', 'AlwaysAnsi', 'Auto', 'Never'],
     'Ordering': ['Less', 'Equal', 'Greater'],
+    'SeekFrom': ['Start', 'End', 'Current'],
     'ErrorKind': ['NotFound', 'PermissionDenied', 'ConnectionRefused', 'ConnectionReset', 'HostUnreachable', 'NetworkUnreachable',
                   'ConnectionAborted', 'NotConnected', 'AddrInUse', 'AddrNotAvailable', 'NetworkDown', 'BrokenPipe', 'AlreadyExists',
                   'WouldBlock', 'NotADirectory', 'IsADirectory', 'DirectoryNotEmpty', 'ReadOnlyFilesystem', 'FilesystemLoop',
